@@ -1,5 +1,5 @@
 (* C07 - TimeDate and TimeSpan outputs follow the wall clock. *)
-From Verif Require Import Values Interval TimeDate TimeDateProofs.
+From Verif Require Import Values Interval TimeDate TimeDateProofs CronProofs.
 Open Scope list_scope.
 Open Scope Z_scope.
 
@@ -56,6 +56,43 @@ Theorem C07_bisect_left_spec : forall tt x,
   (forall y, nth_error tt (bisect_left tt x) = Some y -> lex_lt y x = false).
 Proof. exact bisect_left_spec. Qed.
 
+(* the timetable is strictly sorted (by the microsecond of the day), so the index arithmetic of
+   Cron._maintask never skips an alarm point: *)
+Theorem C07_timetable_sorted : forall alarms,
+  all_valid alarms -> all_valid (timetable alarms) /\ sorted_keys (timetable alarms).
+Proof. exact timetable_sorted. Qed.
+
+(* after a start, a reload (a block was reconfigured) or a reset (clock jump): the wake-up chosen
+   by bisect_left is the first alarm point that is not over; if no entry is left today every
+   alarm point is over and the index wraps to 00:00:00 *)
+Theorem C07_fresh_wakeup_skips_nothing : forall alarms now,
+  all_valid alarms -> valid_time now = true ->
+  let tt := timetable alarms in
+  let i := bisect_left tt now in
+  ((i < List.length tt)%nat ->
+     In (nth i tt []) tt /\ time_key now <= time_key (nth i tt []) /\
+     forall a, In a alarms -> time_key now <= time_key a -> time_key (nth i tt []) <= time_key a) /\
+  ((i >= List.length tt)%nat -> forall a, In a alarms -> time_key a < time_key now).
+Proof. exact fresh_wakeup_skips_nothing. Qed.
+
+(* the wake-ups that follow (index + 1): no alarm point lies strictly between two consecutive
+   wake-ups, and none after the last entry of the day - together with
+   C07_timedate_constant_between_alarms: recalculating at the wake-ups keeps every output equal to
+   its predicate *)
+Theorem C07_next_wakeup_skips_nothing : forall alarms i,
+  all_valid alarms ->
+  let tt := timetable alarms in
+  (S i < List.length tt)%nat ->
+  time_key (nth i tt []) < time_key (nth (S i) tt []) /\
+  forall a, In a alarms -> ~ (time_key (nth i tt []) < time_key a < time_key (nth (S i) tt [])).
+Proof. exact next_wakeup_skips_nothing. Qed.
+
+Theorem C07_last_wakeup_skips_nothing : forall alarms,
+  all_valid alarms ->
+  let tt := timetable alarms in
+  forall a, In a alarms -> time_key a <= time_key (nth (List.length tt - 1) tt []).
+Proof. exact last_wakeup_skips_nothing. Qed.
+
 (* NOT theorems: that the asyncio task wakes up close to the requested time and that every alarm
    point gets its recalculation (the _maintask loop with its three-step sleep is tied by the
    replay of its debug log, cron_replay, and the property itself is decided on the sampled outputs
@@ -70,3 +107,7 @@ Print Assumptions C07_sleeptime_spec.
 Print Assumptions C07_alarms_in_timetable.
 Print Assumptions C07_hourly_wakeup_exists.
 Print Assumptions C07_bisect_left_spec.
+Print Assumptions C07_timetable_sorted.
+Print Assumptions C07_fresh_wakeup_skips_nothing.
+Print Assumptions C07_next_wakeup_skips_nothing.
+Print Assumptions C07_last_wakeup_skips_nothing.
